@@ -221,6 +221,7 @@ func solveOne(rep *FuncReport, o *Obligation, idx int, opt SolveOptions) {
 			o.ByWhich[x.name] = x.r.status
 			if x.r.status == "unsat" && o.Status != "proved" {
 				o.Status, o.Solver = "proved", x.name
+				break // first proof wins; the other solvers run out on their own time limit
 			}
 			if x.r.status == "sat" && sawSat == "" {
 				sawSat, satOut = x.name, x.r.output
